@@ -567,7 +567,14 @@ theorem inv_pushStore (f : Int → Outcome) (s : St) (id : Int) (h : Inv f s) : 
       · intro hcl hw
         have := (h.closedR hcl hw).1
         rw [hopen hcl.1] at this; simp at this
-    dsimp only
+    show Inv f (match findTask id s.tasks with
+      | some t =>
+        if t.fut = .done ∧ callbackAttached = true then
+          { s with storing := s.storing.erase id,
+                   tasks := updTask id (fun t => { t with cb := true }) s.tasks,
+                   th := callback (submitStore s.th id) id }
+        else { s with storing := s.storing.erase id, th := submitStore s.th id }
+      | none => { s with storing := s.storing.erase id, th := submitStore s.th id })
     cases hf : findTask id s.tasks with
     | none => exact base
     | some t0 =>
@@ -731,16 +738,68 @@ theorem erase_step (f g : Int → Outcome) (s : St) (st : Step) :
       have h1 : (eraseTask t0).fut = t0.fut := rfl
       have h2 : (eraseTask t0).cb = t0.cb := rfl
       rw [h1, h2]
-      by_cases hc : t0.fut = .done ∧ t0.cb = false ∧ callbackAttached = true
-      · simp only [hc, and_self, if_true]
+      by_cases hc : t0.fut = .done ∧ t0.cb = false ∧ callbackAttached = true ∧ s.storing.contains id = false
+      · obtain ⟨c1, c2, c3, c4⟩ := hc
+        have c4' : (erase s).storing.contains id = false := c4
+        simp only [erase] at c4'
+        simp only [c1, c2, c3, c4, c4', and_self, if_true]
         have e := updTask_erase id (fun t => { t with cb := true }) (fun t => { t with cb := true }) s.tasks (fun _ => rfl)
         cases hfl : s.flush with
         | waiting todo => simp only [fact_snapshot, if_true]; rw [e]
         | idle => simp only; rw [e]
         | returned => simp only; rw [e]
         | raised x => simp only; rw [e]
-      · simp only [hc, if_false]
+      · have hc' : ¬(t0.fut = .done ∧ t0.cb = false ∧ callbackAttached = true ∧
+            (erase s).storing.contains id = false) := hc
+        simp only [erase] at hc'
+        simp only [hc, hc', if_false]
         simp [List.map_map, Function.comp, eraseTask]
+  | pushBegin =>
+    show erase (pushBegin s) = erase (pushBegin (erase s))
+    cases ho : s.th.isOpen with
+    | false =>
+      rw [pushBegin_closed s ho, pushBegin_closed (erase s) ho]; simp [erase, List.map_map, Function.comp, eraseTask]
+    | true =>
+      rw [pushBegin_open s ho, pushBegin_open (erase s) ho]; simp [erase, List.map_map, Function.comp, eraseTask]
+  | pushStore id =>
+    simp only [step, erase, findTask_erase]
+    by_cases hin : s.storing.contains id = true
+    · rw [if_pos hin, if_pos hin]
+      cases hf : findTask id s.tasks with
+      | none => simp [List.map_map, Function.comp, eraseTask]
+      | some t0 =>
+        simp only [Option.map_some]
+        have h1 : (eraseTask t0).fut = t0.fut := rfl
+        rw [h1]
+        by_cases hd : t0.fut = .done ∧ callbackAttached = true
+        · rw [if_pos hd, if_pos hd]
+          have e := updTask_erase id (fun t => { t with cb := true }) (fun t => { t with cb := true }) s.tasks
+            (fun _ => rfl)
+          simp only; rw [e]
+        · rw [if_neg hd, if_neg hd]
+          simp [List.map_map, Function.comp, eraseTask]
+    · rw [if_neg hin, if_neg hin]
+      simp [List.map_map, Function.comp, eraseTask]
+  | flushTimeout =>
+    simp only [step, erase]
+    cases hfl : s.flush with
+    | waiting todo =>
+      cases todo with
+      | nil => simp [hfl, List.map_map, Function.comp, eraseTask]
+      | cons id rest =>
+        simp only [findTask_erase]
+        cases hf : findTask id s.tasks with
+        | none => simp [hfl, List.map_map, Function.comp, eraseTask]
+        | some t0 =>
+          simp only [Option.map_some]
+          have h1 : (eraseTask t0).fut = t0.fut := rfl
+          rw [h1]
+          by_cases hd : t0.fut = .done
+          · simp [hd, hfl, List.map_map, Function.comp, eraseTask]
+          · simp [hd, hfl, fact_catches, List.map_map, Function.comp, eraseTask]
+    | idle => simp [hfl, List.map_map, Function.comp, eraseTask]
+    | returned => simp [hfl, List.map_map, Function.comp, eraseTask]
+    | raised x => simp [hfl, List.map_map, Function.comp, eraseTask]
   | flushBegin =>
     simp only [step, erase]
     cases hfl : s.flush <;> simp [hfl, List.map_map, Function.comp, eraseTask]
